@@ -20,10 +20,10 @@ def run(tier: str, seed: int):
                # a task whose worker dies is not quietly executed a second time
                + list(F.fam_e3(F.fam_faults(1, 3, max_faults=1, reqs='sinks', kinds=('died',), cofs=(True,)), workers=(1, 2), liveness=False)))
     else:
-        cfgs = (list(F.fam_shapes(1, 5, batch=2)) + list(F.fam_shapes(1, 4, batch=3, bust=(False, True)))
+        cfgs = (list(F.fam_shapes(1, 4, batch=2)) + list(F.fam_shapes(5, 5, batch=2, pre=False)) + list(F.fam_shapes(1, 4, batch=3, bust=(False, True)))
                 + list(F.fam_variants(3, batch=3)) + list(F.fam_variants(2, cross=True)))
         serial = list(F.fam_shapes(1, 4, batch=1)) + list(F.fam_variants(3))
-        rule = 'n<=5 shapes; n<=4 batch<=3 with bust_cache; n<=2 full cross of placement x dup x types x requests x pre-cache'
+        rule = 'n<=4 shapes x pre-cached subsets, n=5 cold; n<=4 batch<=3 with bust_cache; n<=2 full cross of placement x dup x types x requests x pre-cache'
         e3c = (list(F.fam_e3(F.fam_shapes(1, 3), workers=(1, 2, None))) + list(F.fam_e3(F.fam_variants(3), workers=(2,), liveness=False))
                + list(F.fam_e3(F.fam_faults(1, 3, max_faults=2, kinds=('died', 'raise'), cofs=(True,)), workers=(1, 2))))
     if tier != 'quick':
